@@ -295,9 +295,10 @@ def typed_options(tool):
         elif a.nargs == 2:
             vals = [["0.5", "30"], ["0.25", "45.5"]]
         elif a.type is int:
-            vals = [["3"], ["500"]]
+            vals = [["3"], ["500"], ["+4"]]
         elif a.type is float:
-            vals = [["0.5"], ["-0.5"], ["2"], ["2.0"]]
+            vals = [["0.5"], ["-0.5"], ["2"], ["2.0"], ["-.5"], ["-1e-3"],
+                    [".25"], ["-2"]]
         else:
             continue
         opts.append((name, a.dest, vals))
